@@ -241,6 +241,9 @@ func runC12(c *Ctx) int {
 	progs := apiPrograms(c.Seed+200, n, []string{"mixed", "buckets", "big", "structural"}, func(i int, cfg *gen.Config) {
 		cfg.ROProbe = 0
 		cfg.FailCommit = 0.1
+		if i%2 == 1 {
+			cfg.OptSched = sessionOpts
+		}
 		// option combinations: grow-sync, initial map size, backend changes on reopen
 		cfg.Opts.NoGrowSync = i%3 == 0
 		if i%5 == 0 {
